@@ -11,7 +11,7 @@ vars == <<l, run, serial, st, sig, entered, decision, texts>>
 Ev == TheTrace[l]
 Is(name) == l <= TraceLen /\ Ev.e = name
 
-NoRun == [P |-> 1, plan |-> <<>>, usage |-> 1, hasPos |-> FALSE, exactFirstOnly |-> FALSE, posMod |-> 1, base |-> 0, n0 |-> 0]
+NoRun == [P |-> 1, plan |-> <<>>, usage |-> 1, hasPos |-> FALSE, exactFirstOnly |-> FALSE, posMod |-> 1, base |-> 0, n0 |-> 0, sqExact |-> TRUE, big |-> FALSE]
 Init == /\ l = 1 /\ run = NoRun /\ serial = <<>> /\ st = <<>> /\ sig = <<>> /\ entered = <<>> /\ decision = <<>> /\ texts = [serial |-> 0, mpi |-> 0]
 
 Ranks == 0 .. run.P - 1
@@ -19,7 +19,8 @@ BaseOf(i) == LET F[k \in 0 .. Len(run.plan)] == IF k = 0 THEN 0 ELSE F[k - 1] + 
 Fresh == [it |-> 1, evals |-> 0, seq |-> 0, inside |-> FALSE, adds |-> 0, colls |-> 0, ret |-> TRUE, returned |-> FALSE]
 
 TRun == /\ Is("MRun")
-        /\ run' = [P |-> Ev.P, plan |-> Ev.plan, usage |-> Ev.usage, hasPos |-> Ev.hasPos = 1, exactFirstOnly |-> Ev.exactFirstOnly = 1, posMod |-> Ev.posMod, base |-> Ev.base, n0 |-> Ev.n0]
+        /\ run' = [P |-> Ev.P, plan |-> Ev.plan, usage |-> Ev.usage, hasPos |-> Ev.hasPos = 1, exactFirstOnly |-> Ev.exactFirstOnly = 1, posMod |-> Ev.posMod, base |-> Ev.base, n0 |-> Ev.n0, sqExact |-> Ev.sqExact = 1,
+                   big |-> ("big" \in DOMAIN Ev) /\ Ev.big = 1]   \* very long run: evaluations are not logged, sums are not exact
         /\ serial' = <<>> /\ st' = [r \in 0 .. Ev.P - 1 |-> Fresh] /\ sig' = <<>> /\ entered' = <<>> /\ decision' = <<>>
         /\ texts' = [serial |-> 0, mpi |-> 0] /\ l' = l + 1
 
@@ -54,7 +55,7 @@ TEnter ==
            k == s.seq + 1
        IN /\ r \in Ranks /\ ~s.inside /\ ~s.returned /\ Ev.seq = k
           /\ s.it <= Len(run.plan) /\ s.adds = s.it - 1
-          /\ s.evals = Sub(run.plan[s.it], r, run.P)                              \* its whole share was sampled before
+          /\ run.big \/ s.evals = Sub(run.plan[s.it], r, run.P)                   \* its whole share was sampled before
           /\ (k \in DOMAIN sig) => sig[k] = <<Ev.count, Ev.type>>
           /\ sig' = IF k \in DOMAIN sig THEN sig ELSE (k :> <<Ev.count, Ev.type>>) @@ sig
           /\ entered' = IF k \in DOMAIN entered THEN [entered EXCEPT ![k] = @ \cup {r}] ELSE (k :> {r}) @@ entered
@@ -78,14 +79,16 @@ TAdd ==
            s == st[r]
            i == s.it
            ref == serial[i]
-           exact == (~run.exactFirstOnly) \/ (i = 1 /\ run.n0 = 0)
+           exact == ~run.big /\ ((~run.exactFirstOnly) \/ (i = 1 /\ run.n0 = 0))
        IN /\ r \in Ranks /\ ~s.inside /\ ~s.returned /\ (run.P = 1 \/ s.colls >= 1 \/ TRUE) /\ s.adds = i - 1
           /\ Ev.n = run.n0 + i /\ i <= Len(serial)
           /\ (i = 1) => Ev.recorded = ref.recorded                                  \* both runs start from the same checkpoint: same first state
           /\ Ev.calls = ref.calls /\ Ev.nz = ref.nz /\ Ev.fin = ref.fin                \* call counters identical
           /\ Ev.gen = ref.gen                                                          \* stored generator identical
-          /\ IF exact THEN Ev.rid = ref.rid /\ Ev.recorded = ref.recorded
-             ELSE Near(Ev.sumQ, ref.sumQ) /\ Near(Ev.sumsqQ, ref.sumsqQ)
+          \* (values with more bits than half the mantissa: their squares are rounded, so only the sums - of the result and of every bin - are
+          \*  identical and the sums of squares agree up to reassociation)
+          /\ IF exact THEN (IF run.sqExact THEN Ev.rid = ref.rid ELSE Ev.sid = ref.sid /\ Near(Ev.sumsqQ, ref.sumsqQ)) /\ Ev.recorded = ref.recorded
+             ELSE run.big \/ (Near(Ev.sumQ, ref.sumQ) /\ Near(Ev.sumsqQ, ref.sumsqQ))   \* (the very long run is about the counters only)
           /\ (i > 1) => Ev.recorded = Ev.derivedPrev                                   \* C19: sampled with the refinement of the reduced result i-1
           /\ st' = [st EXCEPT ![r].adds = i]
     /\ UNCHANGED <<run, serial, sig, entered, decision, texts>> /\ l' = l + 1
@@ -110,7 +113,7 @@ TReturned ==
           /\ Ev.n = run.n0 + s.adds /\ s.adds = Len(serial)                             \* as many iterations as the serial run
           /\ (~s.ret) \/ s.it = Len(run.plan) + 1
           /\ (texts.mpi # 0) => Ev.text = texts.mpi                                    \* every rank returns the same checkpoint
-          /\ (~run.exactFirstOnly \/ Len(serial) <= 1) => Ev.text = texts.serial       \* ... the serial one when sums are exact
+          /\ (~run.big /\ (~run.exactFirstOnly \/ Len(serial) <= 1)) => Ev.text = texts.serial       \* ... the serial one when sums are exact
           /\ texts' = [texts EXCEPT !.mpi = Ev.text]
           /\ st' = [st EXCEPT ![r].returned = TRUE]
     /\ UNCHANGED <<run, serial, sig, entered, decision>> /\ l' = l + 1
